@@ -132,6 +132,10 @@ pub struct RunOptions {
     /// The thread pool to execute the model on. By default the model is
     /// executed on the global thread pool.
     pub thread_pool: Option<Arc<threading::ThreadPool>>,
+
+    /// Seeded executor strategy, for external verification tooling.
+    #[cfg(rten_verif)]
+    pub verif_strategy: Option<Arc<crate::verif::Strategy>>,
 }
 
 impl RunOptions {
@@ -784,6 +788,11 @@ impl Graph {
                 (opts.timing || opts.verbose).then(|| Profiler::with_capacity(plan.plan().len()));
 
             let pool = BufferPool::new();
+            #[cfg(rten_verif)]
+            let pool = match opts.verif_strategy.clone() {
+                Some(strategy) => pool.verif_with_strategy(strategy),
+                None => pool,
+            };
 
             let result = self.run_plan(
                 inputs,
@@ -888,6 +897,17 @@ impl Graph {
         mut profiler: Option<&mut Profiler<'a>>,
         opts: &RunOptions,
     ) -> Result<Vec<Value>, RunError> {
+        #[cfg(rten_verif)]
+        let verif_plan: Vec<NodeId>;
+        #[cfg(rten_verif)]
+        let plan: &[NodeId] = match opts.verif_strategy.as_deref() {
+            Some(strategy) if strategy.shuffle_plan => {
+                verif_plan = self.verif_shuffled_plan(plan, strategy);
+                &verif_plan
+            }
+            _ => plan,
+        };
+
         let mut temp_values = ValueMap::new();
         temp_values.enable_mem_profiling(profiler.is_some());
 
@@ -1003,6 +1023,36 @@ impl Graph {
                     .collect()
             };
 
+            #[cfg(rten_verif)]
+            let in_place_candidates = match opts.verif_strategy.as_deref() {
+                Some(strategy)
+                    if strategy.any_commutative_operand
+                        && op_node.operator().is_commutative()
+                        && !in_place_candidates.is_empty() =>
+                {
+                    let present: SmallVec<[(usize, NodeId); 2]> = op_node
+                        .input_ids()
+                        .iter()
+                        .enumerate()
+                        .filter_map(|(pos, id)| id.map(|id| (pos, id)))
+                        .collect();
+                    let choice = present[strategy.pick(0xC0, present.len())];
+                    if choice != in_place_candidates[0] {
+                        crate::verif::Strategy::count(&strategy.stats.commutative_repicked);
+                    }
+                    [choice].into_iter().collect()
+                }
+                _ => in_place_candidates,
+            };
+            #[cfg(rten_verif)]
+            let use_pool = match opts.verif_strategy.as_deref() {
+                Some(strategy) if use_pool && strategy.decide(0xB0, strategy.keep_out_of_pool) => {
+                    crate::verif::Strategy::count(&strategy.stats.kept_out_of_pool);
+                    false
+                }
+                _ => use_pool,
+            };
+
             // Only run in-place if all of the in-place inputs are available to
             // take as owned values. This simplifies the cases that
             // `Operator::run_in_place` implementations have to handle.
@@ -1020,6 +1070,20 @@ impl Graph {
                                     })
                                     .unwrap_or(false)))
                 });
+
+            #[cfg(rten_verif)]
+            let run_in_place = match opts.verif_strategy.as_deref() {
+                Some(strategy) if run_in_place => {
+                    if strategy.decide(0xA0, strategy.refuse_in_place) {
+                        crate::verif::Strategy::count(&strategy.stats.in_place_refused);
+                        false
+                    } else {
+                        crate::verif::Strategy::count(&strategy.stats.in_place_runs);
+                        true
+                    }
+                }
+                _ => run_in_place,
+            };
 
             // Take a value for passing to an operator as an owned value, if
             // it won't be needed by other operators in future.
@@ -1057,7 +1121,18 @@ impl Graph {
                     if op_node.input_ids().contains(&Some(node_id)) {
                         continue;
                     }
+                    #[cfg(rten_verif)]
+                    if let Some(strategy) = opts.verif_strategy.as_deref() {
+                        if strategy.decide(0xD0, strategy.refuse_by_value_capture) {
+                            crate::verif::Strategy::count(&strategy.stats.by_value_refused);
+                            continue;
+                        }
+                    }
                     if let Some(tensor) = take_value(node_id) {
+                        #[cfg(rten_verif)]
+                        if let Some(strategy) = opts.verif_strategy.as_deref() {
+                            crate::verif::Strategy::count(&strategy.stats.by_value_captures);
+                        }
                         by_value_captures.insert(node_id, tensor);
                     }
                 }
@@ -1226,6 +1301,10 @@ impl Graph {
                     && use_pool
                     && let Some(tensor) = temp_values.remove(node_id)
                 {
+                    #[cfg(rten_verif)]
+                    if let Some(strategy) = opts.verif_strategy.as_deref() {
+                        crate::verif::Strategy::count(&strategy.stats.released_to_pool);
+                    }
                     tensor.add_to_pool(pool)
                 }
             }
@@ -1283,6 +1362,59 @@ impl Graph {
         }
 
         Ok(result)
+    }
+
+    /// Return a seeded topological order of the operators in `plan`.
+    #[cfg(rten_verif)]
+    fn verif_shuffled_plan(
+        &self,
+        plan: &[NodeId],
+        strategy: &crate::verif::Strategy,
+    ) -> Vec<NodeId> {
+        // Map each value to the position in `plan` of the operator that produces it.
+        let mut producer: FxHashMap<NodeId, usize> = FxHashMap::default();
+        for (pos, op_id) in plan.iter().enumerate() {
+            if let Some(Node::Operator(op)) = self.nodes.get(op_id) {
+                for out in op.output_ids().iter().flatten() {
+                    producer.insert(*out, pos);
+                }
+            }
+        }
+        let mut deps: Vec<Vec<usize>> = vec![Vec::new(); plan.len()];
+        for (pos, op_id) in plan.iter().enumerate() {
+            if let Some(Node::Operator(op)) = self.nodes.get(op_id) {
+                for dep in self.operator_dependencies(op) {
+                    if let Some(&src) = producer.get(&dep) {
+                        if src != pos && !deps[pos].contains(&src) {
+                            deps[pos].push(src);
+                        }
+                    }
+                }
+            }
+        }
+        let mut done = vec![false; plan.len()];
+        let mut order = Vec::with_capacity(plan.len());
+        while order.len() < plan.len() {
+            let ready: Vec<usize> = (0..plan.len())
+                .filter(|&pos| !done[pos] && deps[pos].iter().all(|&src| done[src]))
+                .collect();
+            if ready.is_empty() {
+                // Not a DAG: keep the original order for the rest.
+                order.extend(
+                    (0..plan.len())
+                        .filter(|&pos| !done[pos])
+                        .map(|pos| plan[pos]),
+                );
+                break;
+            }
+            let pos = ready[strategy.pick(0xE0, ready.len())];
+            done[pos] = true;
+            order.push(plan[pos]);
+        }
+        if order != plan {
+            crate::verif::Strategy::count(&strategy.stats.plans_shuffled);
+        }
+        order
     }
 
     /// Print detailed information about an operation just after it has run.
